@@ -68,6 +68,15 @@ func main() {
 		os.Exit(coordinator(os.Args[2], os.Args[3]))
 	case "replay":
 		os.Exit(replay(os.Args[2]))
+	case "conform":
+		n, probs := conformance()
+		fmt.Printf("conformance: %d traces replayed against the real ATP client/server, %d disagreements\n", n, len(probs))
+		for _, p := range probs {
+			fmt.Println("  ", p)
+		}
+		if len(probs) > 0 {
+			os.Exit(2)
+		}
 	case "list":
 		pc := registry[os.Args[2]]
 		for i, u := range pc.Units(os.Args[3]) {
@@ -290,11 +299,20 @@ func coordinator(prop, tier string) int {
 	}
 	wg.Wait()
 
+	// bind the environment models to the real ATP stack
+	if pc.Level == "model_checking" {
+		n, probs := conformance()
+		validatedBase = n
+		for _, p := range probs {
+			infra = append(infra, "environment model disagrees with the real ATP client/server: "+p)
+		}
+	}
 	// merge
 	known := loadKnown(prop)
 	var execs int
 	var points int64
-	var sigs, outcomes, validated, nontrivial int
+	var sigs, outcomes, nontrivial int
+	validated := validatedBase
 	exhaustive := true
 	minBound := 1 << 30
 	var perScenario []map[string]any
@@ -481,6 +499,8 @@ func replay(path string) int {
 	fmt.Fprintln(os.Stderr, "unit not found:", art.Unit)
 	return 2
 }
+
+var validatedBase int
 
 // replaySchedule, when set, makes exploring units run exactly this schedule.
 var replaySchedule []vrt.Dev
